@@ -73,3 +73,9 @@ claim("C09",
       "Tolerance 1e-6 of the total duty. The run counts how many cases actually show inter-zone recovery (TS < TZ) so that the bracketing is not checked vacuously.",
       "bounded-exhaustive input/configuration enumeration on the real service with algebraic oracles",
       "DESIGN.md section 4 C09")
+
+claim("C10",
+      "Every multiset of <=4 (quick) / <=5 (thorough) labels from an 11-label alphabet (flat names, nested paths, labels that are prefixes/suffixes of each other, the generated unit-operation name O1 and a path through it, an untrimmed name, the root name) x {distinct, duplicate} stream names x 5 zone-tree forms (none, flat, nested, equal names at two depths, types given by depth) through prepare_problem, and the <=2/3-label subset through the full service: every input stream (traced by a unique duty) is in exactly one leaf, exactly once in each ancestor and nowhere else; per-zone counts and duties equal those of the labelled streams; utilities are per-zone independent objects (identity + mutate-one/observe-others).",
+      "With a user tree only labels that resolve to exactly one node are enumerated. One known finding (stream placed in a zone that also has sub-zones is dropped) is matched by an independently computed cause predicate.",
+      "bounded-exhaustive label/tree enumeration on the real zone-tree construction",
+      "DESIGN.md section 4 C10")
